@@ -320,10 +320,33 @@ package server
 // Sandbox sealing: every interpreter handed out by the pool has the metatable that forbids new globals. The seal is set
 // by lStatePool.New (assumed meaning of the one SetMetatable call in this package); the pool only stores sealed states.
 //@ ghost func luaSealed(L ref) bool
+// Allow-list of the script environment: the only library openers run are the base subset, table, math, string and the
+// os subset; the only globals set by this package are tile38 (with its six functions), json, and _G/_VERSION/
+// _GOPHER_LUA_VERSION, tonumber, tostring (base subset), os.clock, os.difftime (os subset). What OpenTable, OpenMath,
+// OpenString and the json loader put into their tables is the libraries' business (assumed harmless).
+//@ ghost macro allowedOpener(f) = f == funcref("server.openBaseSubset") || f == funcref("lua.OpenTable") || f == funcref("lua.OpenMath") || f == funcref("lua.OpenString") || f == funcref("server.openOsSubset")
 //@ func lStatePool.New
 //@   frame-by-effects
 //@   modifies steps, perCall
 //@   ensures [sealed] result != nil && luaSealed(result)
+//@   api-only lua NewState, OpenTable, OpenMath, OpenString, LState.CallByParam, LState.NewFunction, LValue.String, LTable.RawGetString, LState.ToString, LState.RaiseError, LState.Push, LState.CreateTable, LTable.RawSetString, LState.ToNumber, LState.NewTable, LState.SetFuncs, LState.SetGlobal, LState.Get, LState.SetMetatable
+//@   api-only json Loader
+//@   at-call lua.NewState#1 [no-default-libraries] len(arg0) == 1 && arg0[0].SkipOpenLibs
+//@   at-call lua.LState.NewFunction#1 [only-allowed-openers] allowedOpener(arg0)
+//@   at-call lua.LState.SetGlobal#1 [global.tile38] arg0 == "tile38"
+//@   at-call lua.LState.SetGlobal#2 [global.json] arg0 == "json"
+//@   at-call lua.LState.SetFuncs#1 [tile38-exports] allstr(k, indom(arg1, k) ==> k == "call" || k == "pcall" || k == "error_reply" || k == "status_reply" || k == "sha1hex" || k == "distance_to")
+//@ func openBaseSubset
+//@   frame-by-effects
+//@   api-only lua LState.Get, LState.SetGlobal, LState.RegisterModule, LState.Push
+//@   at-call lua.LState.SetGlobal#1 [global._G] arg0 == "_G"
+//@   at-call lua.LState.SetGlobal#2 [global._VERSION] arg0 == "_VERSION"
+//@   at-call lua.LState.SetGlobal#3 [global._GOPHER_LUA_VERSION] arg0 == "_GOPHER_LUA_VERSION"
+//@   at-call lua.LState.RegisterModule#1 [base-subset] arg0 == "_G" && allstr(k, indom(arg1, k) ==> k == "tonumber" || k == "tostring")
+//@ func openOsSubset
+//@   frame-by-effects
+//@   api-only lua LState.RegisterModule, LState.Push
+//@   at-call lua.LState.RegisterModule#1 [os-subset] arg0 == "os" && allstr(k, indom(arg1, k) ==> k == "clock" || k == "difftime")
 //@ func lStatePool.Get
 //@   frame-by-effects
 //@   entry-assume pl != nil && forall(i, 0, len(pl.saved), pl.saved[i] != nil && luaSealed(pl.saved[i]))
